@@ -439,6 +439,121 @@ impl Modelled for TrZ2 {
     }
 }
 
+/// Hand-written CompactAs with a fallible conversion (values above 100 are rejected).
+#[derive(Clone, Copy, Debug, PartialEq)]
+pub struct Pct(pub u32);
+impl CompactAs for Pct {
+    type As = u32;
+    fn encode_as(&self) -> &u32 {
+        &self.0
+    }
+    fn decode_from(x: u32) -> Result<Self, parity_scale_codec::Error> {
+        if x > 100 {
+            Err("percentage above 100".into())
+        } else {
+            Ok(Pct(x))
+        }
+    }
+}
+impl From<Compact<Pct>> for Pct {
+    fn from(x: Compact<Pct>) -> Pct {
+        x.0
+    }
+}
+impl Modelled for Compact<Pct> {
+    fn schema() -> S {
+        S::CompactLe(4, 100)
+    }
+    fn to_model(&self) -> V {
+        V::U((self.0).0 as u128)
+    }
+    fn from_model(v: &V) -> Self {
+        Compact(Pct(v.as_u() as u32))
+    }
+}
+
+/// Tuple structs with a skipped field in front of / between encoded fields.
+#[derive(Encode, Decode, DecodeWithMemTracking, Clone, Debug, PartialEq)]
+pub struct TupSkip(#[codec(skip)] pub u8, pub u16, pub u32);
+impl Modelled for TupSkip {
+    fn schema() -> S {
+        S::Tuple(vec![S::Skipped(V::U(0)), u16::schema(), u32::schema()])
+    }
+    fn to_model(&self) -> V {
+        V::Tuple(vec![self.0.to_model(), self.1.to_model(), self.2.to_model()])
+    }
+    fn from_model(v: &V) -> Self {
+        let t = v.as_tuple();
+        TupSkip(u8::from_model(&t[0]), u16::from_model(&t[1]), u32::from_model(&t[2]))
+    }
+}
+#[derive(Encode, Decode, DecodeWithMemTracking, Clone, Debug, PartialEq)]
+pub struct TupSkip2(pub u8, #[codec(skip)] pub u16, pub String, pub u64);
+impl Modelled for TupSkip2 {
+    fn schema() -> S {
+        S::Tuple(vec![u8::schema(), S::Skipped(V::U(0)), String::schema(), u64::schema()])
+    }
+    fn to_model(&self) -> V {
+        V::Tuple(vec![self.0.to_model(), self.1.to_model(), self.2.to_model(), V::U(self.3 as u128)])
+    }
+    fn from_model(v: &V) -> Self {
+        let t = v.as_tuple();
+        TupSkip2(u8::from_model(&t[0]), u16::from_model(&t[1]), String::from_model(&t[2]), t[3].as_u() as u64)
+    }
+    fn heap_payload(&self) -> usize {
+        self.2.len()
+    }
+}
+
+/// One encoded primitive field next to a skipped field that occupies memory.
+#[derive(Encode, Decode, DecodeWithMemTracking, Clone, Debug, PartialEq)]
+pub struct Cached {
+    pub value: u32,
+    #[codec(skip)]
+    pub cache: u32,
+}
+impl Modelled for Cached {
+    fn schema() -> S {
+        S::Tuple(vec![u32::schema(), S::Skipped(V::U(0))])
+    }
+    fn to_model(&self) -> V {
+        V::Tuple(vec![self.value.to_model(), self.cache.to_model()])
+    }
+    fn from_model(v: &V) -> Self {
+        let t = v.as_tuple();
+        Cached { value: u32::from_model(&t[0]), cache: u32::from_model(&t[1]) }
+    }
+}
+
+/// Field-less enum mixing an explicit discriminant with implicit positions.
+#[derive(Encode, Decode, DecodeWithMemTracking, Clone, Copy, Debug, PartialEq)]
+pub enum EnumMixed {
+    A = 5,
+    B,
+    C,
+    D = 9,
+    E,
+}
+impl Modelled for EnumMixed {
+    fn schema() -> S {
+        // explicit discriminant where present, otherwise the position among the variants
+        S::Enum(vec![(5, vec![]), (1, vec![]), (2, vec![]), (9, vec![]), (4, vec![])])
+    }
+    fn to_model(&self) -> V {
+        V::Enum(match self { EnumMixed::A => 5, EnumMixed::B => 1, EnumMixed::C => 2, EnumMixed::D => 9, EnumMixed::E => 4 }, vec![])
+    }
+    fn from_model(v: &V) -> Self {
+        match v {
+            V::Enum(5, _) => EnumMixed::A,
+            V::Enum(1, _) => EnumMixed::B,
+            V::Enum(2, _) => EnumMixed::C,
+            V::Enum(9, _) => EnumMixed::D,
+            V::Enum(4, _) => EnumMixed::E,
+            _ => panic!("modelled: EnumMixed"),
+        }
+    }
+}
+
 // ---- enums --------------------------------------------------------------------------------
 
 #[derive(Encode, Decode, DecodeWithMemTracking, Clone, Debug, PartialEq)]
